@@ -57,23 +57,28 @@ def exh_inputs():
     return out
 
 
-def exh_eval(ck, name, header, coq_fn, codes, nranges=NSHARD):
-    """codes: observation code (bytes) per input of exh_inputs(), in order.
-    coq_fn: Coq term of type N -> N -> list N -> list nat (lo hi stream).
-    returns the list of failing input indexes (into exh_inputs())."""
+def exh_eval(ck, name, header, coq_fns, codes_list, nranges=NSHARD):
+    """coq_fns: Coq terms of type N -> N -> list N -> list nat (lo hi stream), one per function;
+    codes_list[k]: observation code (bytes) of function k per input of exh_inputs(), in order.
+    One coqc process per input range evaluates every function on that range.
+    returns {k: sorted failing input indexes (into exh_inputs())}."""
     per = 256 // nranges
     terms = []
+    nf = len(coq_fns)
     for r in range(nranges):
         lo, hi = r * per, (r + 1) * per
-        stream = bytearray()
-        for idx in range(lo * 257, hi * 257):
-            c = codes[idx]
-            stream += len(c).to_bytes(2, "little") + c
-        terms.append("(%d, %d, %s)" % (lo, hi, cbytes(stream)))
-    fn = "(fun c => let '(lo, hi, s) := c in %s lo hi s)" % coq_fn
-    bad = ck.eval_cases(name, header, terms, fn, shard=1)
-    fails = []
-    for r, idxs in bad.items():
+        for k in range(nf):
+            stream = bytearray()
+            for idx in range(lo * 257, hi * 257):
+                c = codes_list[k][idx]
+                stream += len(c).to_bytes(2, "little") + c
+            terms.append("(%d%%nat, %d, %d, %s)" % (k, lo, hi, cbytes(stream)))
+    fn = ("(fun c => let '(k, lo, hi, s) := c in nth k [%s] (fun _ _ _ => [0%%nat]) lo hi s)"
+          % "; ".join(coq_fns))
+    bad = ck.eval_cases(name, header, terms, fn, shard=nf)
+    fails = {k: [] for k in range(nf)}
+    for i, idxs in bad.items():
+        r, k = divmod(i, nf)
         for j in idxs:
-            fails.append(r * per * 257 + j)
-    return sorted(fails)
+            fails[k].append(r * per * 257 + j)
+    return {k: sorted(v) for k, v in fails.items()}
